@@ -88,7 +88,70 @@ fn span_j(tcx: TyCtxt<'_>, sp: Span) -> J {
 }
 
 fn ty_s(ty: Ty<'_>) -> String {
-    rustc_middle::ty::print::with_no_trimmed_paths!(format!("{}", ty))
+    let s = rustc_middle::ty::print::with_no_trimmed_paths!(format!("{}", ty));
+    if !s.contains('$') {
+        return s;
+    }
+    // an unevaluated const argument is printed as its source snippet; inside a macro_rules! body that is the
+    // metavariable (`LevMarProblem<Model, MRHS, $parallel>`), the same text for every expansion. Print the name
+    // of the constant item instead, as outside a macro.
+    let mut names: Vec<String> = Vec::new();
+    rustc_middle::ty::tls::with(|tcx| {
+        for arg in ty.walk() {
+            if let Some(c) = arg.as_const() {
+                if let ty::ConstKind::Unevaluated(uv) = c.kind() {
+                    // a named constant, or (inside a macro body) an anonymous constant whose tokens come from the
+                    // invocation: their span is the call-site argument
+                    let mut n = tcx.opt_item_name(uv.def).map(|x| x.to_string());
+                    if n.is_none() {
+                        let sm = tcx.sess.source_map();
+                        let sp = tcx.def_span(uv.def);
+                        for cand in [sp, sp.source_callsite()] {
+                            if let Ok(t) = sm.span_to_snippet(cand) {
+                                let t = t.trim().trim_start_matches('{').trim_end_matches('}').trim().to_string();
+                                if !t.is_empty() && !t.contains('$') && t.chars().all(|ch| ch.is_alphanumeric() || ch == '_' || ch == ':') {
+                                    n = Some(t);
+                                    break;
+                                }
+                            }
+                        }
+                    }
+                    if n.is_none() {
+                        // … or its value, when it does not depend on generic parameters (`{ PARALLEL_NO }` -> false)
+                        if let Ok(v) = tcx.const_eval_poly(uv.def) {
+                            if let Some(si) = v.try_to_scalar_int() {
+                                let bits = si.to_bits_unchecked();
+                                let tyc = tcx.type_of(uv.def).instantiate_identity().skip_norm_wip();
+                                n = Some(if tyc.is_bool() { (bits != 0).to_string() } else { bits.to_string() });
+                            }
+                        }
+                    }
+                    names.push(n.unwrap_or_else(|| "$const".to_string()));
+                }
+            }
+        }
+    });
+    let mut out = String::new();
+    let mut it = names.into_iter();
+    let b: Vec<char> = s.chars().collect();
+    let mut i = 0;
+    while i < b.len() {
+        if b[i] == '$' {
+            let mut j = i + 1;
+            while j < b.len() && (b[j].is_alphanumeric() || b[j] == '_') {
+                j += 1;
+            }
+            match it.next() {
+                Some(n) => out.push_str(&n),
+                None => out.extend(b[i..j].iter()),
+            }
+            i = j;
+        } else {
+            out.push(b[i]);
+            i += 1;
+        }
+    }
+    out
 }
 
 fn path_s(tcx: TyCtxt<'_>, did: DefId) -> String {
@@ -734,16 +797,33 @@ fn dump_body<'tcx>(tcx: TyCtxt<'tcx>, did: LocalDefId) -> J {
 struct UnsafeFinder<'tcx> {
     tcx: TyCtxt<'tcx>,
     found: Vec<J>,
+    /// keys of the closures the visitor is currently inside of (innermost last): which closure an unsafe block belongs to
+    /// is a matter of nesting, not of source lines (macro-generated code has the lines of the macro)
+    closures: Vec<String>,
 }
 impl<'tcx> rustc_hir::intravisit::Visitor<'tcx> for UnsafeFinder<'tcx> {
+    type NestedFilter = rustc_middle::hir::nested_filter::OnlyBodies;
+    fn maybe_tcx(&mut self) -> Self::MaybeTyCtxt {
+        self.tcx
+    }
     fn visit_block(&mut self, b: &'tcx rustc_hir::Block<'tcx>) {
         if let rustc_hir::BlockCheckMode::UnsafeBlock(src) = b.rules {
             self.found.push(J::obj(vec![
                 ("span", span_j(self.tcx, b.span)),
                 ("user", J::Bool(matches!(src, rustc_hir::UnsafeSource::UserProvided))),
+                ("closure", match self.closures.last() { Some(k) => J::s(k.clone()), None => J::Null }),
             ]));
         }
         rustc_hir::intravisit::walk_block(self, b);
+    }
+    fn visit_expr(&mut self, e: &'tcx rustc_hir::Expr<'tcx>) {
+        if let rustc_hir::ExprKind::Closure(c) = e.kind {
+            self.closures.push(stable_key(self.tcx, c.def_id.to_def_id()));
+            rustc_hir::intravisit::walk_expr(self, e);
+            self.closures.pop();
+        } else {
+            rustc_hir::intravisit::walk_expr(self, e);
+        }
     }
 }
 
@@ -772,7 +852,7 @@ fn dump_crate<'tcx>(tcx: TyCtxt<'tcx>, name: &str) -> J {
                 // too, so only record for non-closures to avoid double counting)
                 if !matches!(kind, DefKind::Closure) {
                     let body = tcx.hir_body_owned_by(did);
-                    let mut f = UnsafeFinder { tcx, found: Vec::new() };
+                    let mut f = UnsafeFinder { tcx, found: Vec::new(), closures: Vec::new() };
                     rustc_hir::intravisit::Visitor::visit_expr(&mut f, body.value);
                     for u in f.found {
                         unsafes.push(J::obj(vec![("in", J::s(stable_key(tcx, gdid))), ("block", u)]));
